@@ -487,6 +487,11 @@ func (collection *ResourceCollection) WatchAll(ctx context.Context, singleCh cha
 			options.TailEvents = collection.capacity - collection.gap
 		}
 
+		// gap might be bigger than the (current) capacity, there is no history to tail in that case
+		if options.TailEvents < 0 {
+			options.TailEvents = 0
+		}
+
 		pos -= int64(options.TailEvents)
 		if pos < 0 {
 			pos = 0
